@@ -1,114 +1,3 @@
-/-
-  Props/C01.lean — an open circuit sheds load: the protected function is not called.
--/
-import CircuitProofs.Props.CircuitCommon
-import CircuitProofs.Lemmas.CircuitB
-namespace CM.Props.C01
-open CM CM.SpecCircuit CM.Props
-
-/-- MAIN (every open/close logic, every state).  If the call is not admitted (circuit effectively open and the closer
-    refuses, or ForceOpen) or the opener vetoes it, the run function is not invoked; the caller gets the open error,
-    or the fallback's result with the open error handed to the fallback; a rejection caused by the open state records
-    exactly one short-circuit event and no other run event, a veto records none. -/
-theorem c01_holds {σo σc : Type} (O : OpenerI σo) (C : CloserI σc) (c : Circ σo σc) (hq : Quiescent c) (op : ExecOp) :
-    verdictC01 c.cfg (some (actualAdmission C c)) (actualPrevent O c) op (execObs O C c op) = none := by
-  by_cases hskip : c.cfg.disabled = true ∨ op.run.isNone = true
-  · unfold verdictC01
-    rw [if_pos hskip]
-  · have hd : c.cfg.disabled = false := by
-      cases h : c.cfg.disabled with
-      | false => rfl
-      | true => exact absurd (Or.inl h) hskip
-    have hrun : ∃ sc, op.run = some sc := by
-      cases h : op.run with
-      | none => exact absurd (Or.inr (by rw [h]; rfl)) hskip
-      | some sc => exact ⟨sc, rfl⟩
-    obtain ⟨sc, hsc⟩ := hrun
-    show verdictC01 c.cfg (some (actualAdmission C c)) (actualPrevent O c) op
-      (mkObs (execute O C c op.ctx op.run op.fb).1 (execute O C c op.ctx op.run op.fb).2.1
-        (execute O C c op.ctx op.run op.fb).2.2 op) = none
-    cases hadm : actualAdmission C c with
-    | false =>
-      have hr : runStep O C (c, {}) op.ctx op.run = (shedState O C c, .ret (some .circuitOpen)) := by
-        rw [hsc]; exact runStep_shed O C c op.ctx sc hadm
-      rw [execute_rejected O C c hd op.ctx op.run op.fb _ hr]
-      have hobs := shedState_obs O C c
-      refine c01_core c (shedState O C c) ?_ ?_ ?_ ?_ false _ op ?_
-      · rw [hobs]
-      · rw [hobs]
-      · rw [(fr_shedState O C c).concFb]; exact hq.2
-      · exact (tr_shedState O C c).cfg
-      · rw [hobs]; rfl
-    | true =>
-      cases hpv : actualPrevent O c with
-      | false =>
-        unfold verdictC01
-        rw [if_neg hskip]
-        simp
-      | true =>
-        have hr : runStep O C (c, {}) op.ctx op.run = (vetoState O C c, .ret (some .circuitOpen)) := by
-          rw [hsc]; exact runStep_veto O C c op.ctx sc hadm hpv
-        rw [execute_rejected O C c hd op.ctx op.run op.fb _ hr]
-        have hobs := vetoState_obs O C c
-        refine c01_core c (vetoState O C c) ?_ ?_ ?_ ?_ true _ op ?_
-        · rw [hobs]
-        · rw [hobs]
-        · rw [(fr_vetoState O C c).concFb]; exact hq.2
-        · exact (tr_vetoState O C c).cfg
-        · rw [hobs]; rfl
-
-/-- explicitly, for the open-state rejection -/
-theorem open_sheds {σo σc : Type} (O : OpenerI σo) (C : CloserI σc) (c : Circ σo σc) (op : ExecOp) (sc : Script)
-    (hen : c.cfg.disabled = false) (hrun : op.run = some sc) (hadm : actualAdmission C c = false) :
-    let r := execute O C c op.ctx op.run op.fb
-    r.2.1.runSeen = none ∧ runEvents r.2.1.emits = [(.shortCircuit, c.clock, 0)] ∧
-      (r.2.2 = .ret (some .circuitOpen) ∨ r.2.1.fbArg = some .circuitOpen ∨ r.2.2 = .ret (some .concLimit)) := by
-  intro r
-  have hr : runStep O C (c, {}) op.ctx op.run = (shedState O C c, .ret (some .circuitOpen)) := by
-    rw [hrun]; exact runStep_shed O C c op.ctx sc hadm
-  have he : r = _ := execute_rejected O C c hen op.ctx op.run op.fb _ hr
-  have hfr := fallbackStep_frame (shedState O C c) op.ctx op.run .circuitOpen op.fb
-  have hobs := shedState_obs O C c
-  rw [he]
-  refine ⟨?_, ?_, ?_⟩
-  · show (fallbackStep (shedState O C c) op.ctx op.run .circuitOpen op.fb).1.2.runSeen = none
-    rw [hfr.1, hobs]
-  · show runEvents (fallbackStep (shedState O C c) op.ctx op.run .circuitOpen op.fb).1.2.emits = _
-    rw [hfr.2, hobs]; rfl
-  · show (fallbackStep (shedState O C c) op.ctx op.run .circuitOpen op.fb).2 = _ ∨
-      (fallbackStep (shedState O C c) op.ctx op.run .circuitOpen op.fb).1.2.fbArg = _ ∨
-      (fallbackStep (shedState O C c) op.ctx op.run .circuitOpen op.fb).2 = _
-    by_cases hskip : op.fb = none ∨ (shedState O C c).1.cfg.fbDisabled = true
-    · left
-      rw [fallbackStep_skip _ _ _ _ _ hskip]
-    · have hfb : ∃ fsc, op.fb = some fsc := by
-        cases h : op.fb with
-        | none => exact absurd (Or.inl h) hskip
-        | some fsc => exact ⟨fsc, rfl⟩
-      obtain ⟨fsc, hfsc⟩ := hfb
-      have hdis : (shedState O C c).1.cfg.fbDisabled = false := by
-        cases h : (shedState O C c).1.cfg.fbDisabled with
-        | false => rfl
-        | true => exact absurd (Or.inr h) hskip
-      by_cases hth : (shedState O C c).1.cfg.fbMaxConc ≥ 0 ∧
-          (shedState O C c).1.concFb + 1 > (shedState O C c).1.cfg.fbMaxConc
-      · right; right
-        rw [hfsc, fallbackStep_throttled _ _ _ _ fsc hdis hth]
-      · right; left
-        rw [hfsc]
-        exact (fallbackStep_invoked _ op.ctx op.run .circuitOpen fsc hdis hth).1
-
-/-- lifted to histories: as long as a history leaves the circuit effectively open and its closer refusing, no run
-    function of that history is ever invoked (stated for the next call after ANY history) -/
-theorem open_sheds_after_any_history {σo σc : Type} (O : OpenerI σo) (C : CloserI σc) (c0 : Circ σo σc)
-    (ops : List (CircOp σo σc)) (op : ExecOp) (sc : Script) (hrun : op.run = some sc) :
-    let c := (runOps O C c0 ops).1
-    c.cfg.disabled = false → actualAdmission C c = false →
-    (execute O C c op.ctx op.run op.fb).2.1.runSeen = none := by
-  intro c hen hadm
-  exact (open_sheds O C c op sc hen hrun hadm).1
-
-example : (execute openerI closerI ({ isOpen := true, opener := .never, closer := .never } : Circ OState CState) {}
-    (some { act := .ret none }) none).2.2 = .ret (some .circuitOpen) := by decide
-
-end CM.Props.C01
+/- Props/C01.lean — property C01: all theorems live in namespace CM.Props.C01, split over two files. -/
+import CircuitProofs.Props.C01Seq
+import CircuitProofs.Props.C01Conc
